@@ -30,7 +30,7 @@ func init() {
 	}
 	Registry["C15"] = &Check{
 		Scenarios: c15Scenarios,
-		Rule: "Server.Serve with three connections plus a fourth offered after the fault; accept script: every placement of <=2 temporary accept errors among the offers; connection A suffers one fault from {handler panic, undecodable header with trailing bytes, disconnect in the middle of a message} at every position 1..3 of its three-message sequence; connections B, C and D exchange two request/answer pairs each with bodies that name their connection (the handler checks that the body belongs to the header); after A's fault the application registers a further handler on the running ServeMux, and the first handler of D also writes to A's (failed) diam.Conn, which must simply return an error; C and D are offered only after that, and C's first message is held inside its body until D has been served completely (so a read buffer shared across connections is overwritten); every ordering of environment steps, timers and blocking hand-overs at preemption bound 0 (quick: each accept placement with three of the nine fault/position pairs; thorough: the full product, and preemption bound 1 for the placement without accept errors); back-off sleeps run on the virtual clock. Four scenarios put 9, 10, 12 and 40 consecutive temporary accept errors between two connections. One scenario accepts a connection as TLS while its peer sends plain Diameter (the handshake fails: the transport must be closed, the other connection served). Three further scenarios (preemption bound 1, thorough 2) put the fault at the third message of a connection whose first handler has requested CloseNotify, so that the notifier goroutine is running when the connection fails.",
+		Rule: "Server.Serve with three connections plus a fourth offered after the fault; accept script: every placement of <=2 temporary accept errors among the offers; connection A suffers one fault from {handler panic, undecodable header with trailing bytes, disconnect in the middle of a message} at every position 1..3 of its three-message sequence; connections B, C and D exchange two request/answer pairs each with bodies that name their connection (the handler checks that the body belongs to the header); after A's fault the application registers a further handler on the running ServeMux, and the first handler of D also writes to A's (failed) diam.Conn, which must simply return an error; C and D are offered only after that, and C's first message is held inside its body until D has been served completely (so a read buffer shared across connections is overwritten); every ordering of environment steps, timers and blocking hand-overs at preemption bound 0 (quick: each accept placement with three of the nine fault/position pairs; thorough: the full product, and preemption bound 1 for the placement without accept errors); back-off sleeps run on the virtual clock. Four scenarios put 9, 10, 12 and 40 consecutive temporary accept errors between two connections. One scenario accepts a connection as TLS whose peer sends 7 bytes of a handshake record and falls silent (later connections must be accepted and served). One scenario accepts a connection as TLS while its peer sends plain Diameter (the handshake fails: the transport must be closed, the other connection served). Three further scenarios (preemption bound 1, thorough 2) put the fault at the third message of a connection whose first handler has requested CloseNotify, so that the notifier goroutine is running when the connection fails.",
 		Assume: []string{"data-race freedom between visible operations (audited separately with -race)"},
 		QuickBudget: 150, ThoroughBudget: 2400,
 	}
@@ -613,6 +613,42 @@ func c15Scenarios(tier string) []*Scenario {
 		}
 		out = append(out, &Scenario{Name: "faults/tls-handshake-failure", Body: srvBody(o), Check: check, Bound: 1, Horizon: 20 * time.Second, Weight: 1,
 			Outcome: func(s *vs.Sched) string { return fmt.Sprintf("events=%d closedA=%v", len(srvSt.events), srvSt.conns["A"].Closed) }})
+	}
+	// a TLS peer that sends the beginning of a handshake record and then falls silent: its handshake
+	// neither completes nor fails - and nobody else may have to wait for it
+	{
+		o := srvOpts{names: []string{"A", "B", "C"}, nmsg: 2, pattern: map[string]string{"B": "each", "C": "one"}, panicAt: map[string]int{}, reports: true, tlsOn: "A"}
+		o.fault = func(name string, c *vnet.Conn, ci int) bool {
+			if name != "A" {
+				return false
+			}
+			c.Deliver([]byte{0x16, 0x03, 0x01, 0x02, 0x00, 0x01, 0x00}) // 7 bytes of a 512-byte handshake record
+			return true
+		}
+		check := func(s *vs.Sched) string {
+			st := srvSt
+			v, handled := srvAnalyse(st, o.names)
+			for _, n := range []string{"B", "C"} {
+				if handled[n] != 2 || fmt.Sprint(answersOn(st.conns[n])) != "[1 2]" {
+					v = append(v, fmt.Sprintf("connection %s, offered after a TLS connection whose peer sent 7 bytes of its handshake and fell silent: %d of 2 requests handled, answers %v", n, handled[n], answersOn(st.conns[n])))
+				}
+				if st.conns[n].Closed {
+					v = append(v, "healthy connection "+n+" was closed")
+				}
+			}
+			if st.lis.NAccepted != 3 {
+				v = append(v, fmt.Sprintf("%d of 3 connections accepted", st.lis.NAccepted))
+			}
+			if st.served {
+				v = append(v, "Serve returned")
+			}
+			for _, p := range s.Panics() {
+				v = append(v, "panic escaped: "+p)
+			}
+			return strings.Join(v, " | ")
+		}
+		out = append(out, &Scenario{Name: "faults/tls-handshake-stalled", Body: srvBody(o), Check: check, Bound: 1, Horizon: 20 * time.Second, Weight: 1,
+			Outcome: func(s *vs.Sched) string { return fmt.Sprintf("events=%d accepted=%d", len(srvSt.events), srvSt.lis.NAccepted) }})
 	}
 	return out
 }
